@@ -116,9 +116,10 @@ class SimHTTP(object):
         from PIL import Image
         q = dict((k.lower(), v[0]) for k, v in parse_qs(urlparse(url).query).items())
         self.gen += 1
+        gen = self.gen
         sched = self.world.sched
         me = sched._me() if sched is not None else None
-        entry = {'gen': self.gen, 'url': url, 'ok': None, 't': self.world.clock.now, 't0': self.world.clock.now,
+        entry = {'gen': gen, 'url': url, 'ok': None, 't': self.world.clock.now, 't0': self.world.clock.now,
                  'task': me.name if me else None, 'proc': me.proc.name if me else None,
                  'seq0': len(sched.log) if sched is not None else 0}
         try:
@@ -129,9 +130,9 @@ class SimHTTP(object):
         self.log.append(entry)
         plan = self.plan(entry) if self.plan is not None else {'yields': 0, 'latency': 0.001, 'fail': False}
         if sched is not None:
-            sched.yield_point('http', self.gen)
+            sched.yield_point('http', gen)
             for _ in range(plan.get('yields', 0)):
-                sched.yield_point('http-wait', self.gen)
+                sched.yield_point('http-wait', gen)
         import time
         if plan.get('latency'):
             time.sleep(plan['latency'])
@@ -143,7 +144,7 @@ class SimHTTP(object):
             raise HTTPClientError('HTTP Error "%s": %d' % (url, code), response_code=code)
         if sched is not None:
             sched.check_alive()
-        img = Image.frombytes('RGB', entry['size'], U.render(entry['bbox'], entry['size'], self.gen, ocean=self.ocean))
+        img = Image.frombytes('RGB', entry['size'], U.render(entry['bbox'], entry['size'], gen, ocean=self.ocean))
         buf = BytesIO()
         img.save(buf, 'PNG')
         entry['ok'] = True
